@@ -278,11 +278,18 @@ epochLoop:
 			debugln("sigIndexes:", locations, "newNext:", newNext)
 			next = &newNext
 			for locIndex, txLoc := range locations {
+				if txLoc.Slot >= before {
+					// newer than the requested range: must neither be returned nor count against the limit
+					continue
+				}
 				tx, err := fetcher(epochNum, txLoc)
 				if err != nil {
 					return nil, fmt.Errorf("error while getting signature at index=%v: %w", txLoc, err)
 				}
-				if tx.Slot < int(until) {
+				if tx.Slot >= 0 && uint64(tx.Slot) >= before {
+					continue
+				}
+				if tx.Slot < 0 || uint64(tx.Slot) < until {
 					break epochLoop
 				}
 				sig, err := tx.Signature()
